@@ -236,6 +236,39 @@ def explore(run, bound=None, limit=None, result=lambda r: r):
         prefix = nxt
 
 
+# ---- process-wide state that the code under test has no business changing ----------------------------
+
+def process_state():
+    """Snapshot of interpreter-wide settings an application owns (a logging library must leave them alone)."""
+    import logging
+    import warnings
+
+    return dict(
+        warnings_filters=list(warnings.filters),
+        sys_excepthook=sys.excepthook,
+        sys_stdout=sys.stdout, sys_stderr=sys.stderr, sys_stdin=sys.stdin,
+        threading_excepthook=threading.excepthook,
+        logging_root_handlers=list(logging.root.handlers), logging_root_level=logging.root.level,
+        sys_displayhook=sys.displayhook,
+    )
+
+
+def process_state_changes(before, after):
+    out = []
+    for k in before:
+        a, b = before[k], after[k]
+        same = (a == b) if isinstance(a, (list, int)) else (a is b)
+        if not same:
+            if isinstance(a, list):
+                added = [x for x in b if x not in a]
+                removed = [x for x in a if x not in b]
+                out.append("%s: added %r, removed %r" % (k, added, removed) if (added or removed)
+                           else "%s: reordered, first entries before %r, after %r" % (k, a[:3], b[:3]))
+            else:
+                out.append("%s: %r -> %r" % (k, a, b))
+    return out
+
+
 # ---- the scheduler ------------------------------------------------------------------------------
 
 class Result(object):
@@ -251,6 +284,7 @@ class Result(object):
         self.names = {}  # tid -> threading.Thread.name (workers: "sched-<run>-<tid>")
         self.calls = []  # (len(trace) at that moment, tid, function name) for every target-file frame entered
         self.leaked = []
+        self.state_changes = []  # process-wide settings that differ after the run (see process_state)
 
     @property
     def schedule(self):
@@ -430,6 +464,7 @@ class Scheduler(object):
         for r in self.rules:
             r.reset()
         deadline = time.monotonic() + self.timeout
+        state0 = process_state()
         _ACTIVE = self
         threading.Thread.start = _patched_start
         threading.Thread.join = _patched_join
@@ -480,6 +515,7 @@ class Scheduler(object):
                 raise InfraError("scheduler: threads %s did not terminate" % leaked)
             res.leaked = leaked
             res.nthreads = len(self._threads)
+            res.state_changes = process_state_changes(state0, process_state())
             return res
         finally:
             self._free = True
